@@ -1682,6 +1682,27 @@ void Engine::exec(const Op &o)
                         join_others();
                 drain();
                 break;
+        case OP_PUMP:
+                // long event histories in one op: the ring indices go round tens of thousands of times
+                {
+                std::vector<int> evc; // the event sources, starting with the one named by the op: consecutive events differ
+                for (size_t q = 0; q < plan.cmds.size(); q++)
+                        if (plan.cmds[(q + (size_t)o.a) % plan.cmds.size()].ev)
+                                evc.push_back((int)((q + (size_t)o.a) % plan.cmds.size()));
+                if (evc.empty())
+                        evc.push_back((int)o.a);
+                uint64_t n = 0;
+                for (int64_t i = 0; i < o.c && !stop_now() && !es.overrun; i++) {
+                        for (int64_t j = 0; j < o.d; j++, n++)
+                                do_trigger(evc[(n / 2) % evc.size()], (n & 1) ? (int)o.b : (o.b == CT_READ ? CT_TEST : CT_READ));
+                        for (int k = 0; k < 20000 && !stop_now() && !es.overrun; k++) {
+                                int st = service_once();
+                                if (mon.model_ok() ? (st == CAT_STATUS_OK && !mon.events_pending()) : k >= 40)
+                                        break;
+                        }
+                }
+                }
+                break;
         case OP_QAPI:
                 if (mon.dead())
                         break;
@@ -1796,7 +1817,14 @@ void Engine::roundtrip(int ci, int evcmd, int evtype, long evdelay)
 RunResult run_plan(const Plan &p, const RunOpts &o)
 {
         RunResult r;
-        Engine e(p, o);
+        RunOpts o2 = o;
+        for (const Op &op : p.ops)
+                if (op.kind == OP_PUMP) {
+                        o2.max_svc += (long)std::min<int64_t>(op.c * op.d * 400, 200000000);
+                        if (op.c * op.d > 5000)
+                                o2.lockset = false; // two mprotect calls per lock would dominate a marathon run
+                }
+        Engine e(p, o2);
         E = &e;
         e.materialise();
         if (!o.monitor)
